@@ -123,7 +123,7 @@ def main():
         if call.seeded and 'seed' in kwargs and isinstance(kwargs['seed'], int):
             # generator object: drawn from that object only
             s = kwargs['seed']
-            outs, states = [], []
+            outs, states, derived = [], [], False
             for _ in range(2):
                 gen = np.random.default_rng(s)
                 rng = np.random.default_rng(seed)
@@ -134,10 +134,43 @@ def main():
                 outs.append(sanit.canon_hash(r))
                 states.append(json.dumps(gen.bit_generator.state,
                     sort_keys=True, default=str))
-                judged('generator-only', not rw2.default_rng
+                # fresh entropy and the global generator are other sources;
+                # an internal stream with an EXPLICIT seed is deterministic,
+                # it is acceptable iff that seed comes from the object
+                # (decided below: the result must follow the object)
+                judged('generator-only', not rw2.entropy
                     and not rw2.legacy, f'{what}: a generator object was '
                     f'passed but teneva created / used another source: '
-                    f'default_rng {rw2.default_rng}, legacy {rw2.legacy}')
+                    f'unseeded default_rng {rw2.entropy}, legacy {rw2.legacy}')
+                derived = derived or bool(rw2.seeded)
+            if derived:
+                # explicitly seeded internal streams: are they derived from
+                # the object?  Another object state must give another result
+                # whenever another integer seed does, and the object must
+                # have been drawn from
+                def variant(seed_arg):
+                    rng = np.random.default_rng(seed)
+                    a, k = call.build(rng)
+                    k = dict(k, seed=seed_arg)
+                    return sanit.canon_hash(call.execute(teneva, a, k))
+                s2 = (s * 2654435761 + 12345) % (1 << 30)
+                sensitive = variant(s) != variant(s2)
+                g2 = np.random.default_rng(s2)
+                st0 = json.dumps(g2.bit_generator.state, sort_keys=True,
+                    default=str)
+                o2 = variant(g2)
+                st1 = json.dumps(g2.bit_generator.state, sort_keys=True,
+                    default=str)
+                if sensitive:
+                    judged('generator-only', o2 != outs[0] and st1 != st0,
+                        f'{what}: internal explicitly seeded generators are '
+                        'used, but the result does not follow the generator '
+                        f'object that was passed (other object state -> same '
+                        f'result: {o2 == outs[0]}; object not drawn from: '
+                        f'{st1 == st0})')
+                    event('derived-internal-streams-follow-the-object')
+                else:
+                    event('derived-internal-streams-not-seed-sensitive')
             judged('generator-clone', outs[0] == outs[1]
                 and states[0] == states[1], f'{what}: two clones of one '
                 'generator gave different results or ended in different '
